@@ -237,4 +237,100 @@ Section Out.
         * eapply Forall_impl; [|exact K5]. intros a ->. exact Hfz0.
         * eapply Forall_impl; [|exact Q2]. intros a. apply Hfz.
   Qed.
+
+  (* ---------------------------------------------------------------- the kernel with and without the departed watches *)
+  (* kC is kP without the watches rejected by f *)
+  Definition krel (f : kwatch -> bool) (kP kC : kst) : Prop :=
+    k_watches kC = filter f (k_watches kP) /\ k_next_wd kC = k_next_wd kP /\ k_next_cookie kC = k_next_cookie kP /\
+    k_queue kC = k_queue kP.
+
+  (* no rejected watch sits on inode i *)
+  Definition nohit_ino (f : kwatch -> bool) (k : kst) (i : N) : Prop :=
+    forall kw, In kw (k_watches k) -> kw_ino kw = i -> f kw = true.
+
+  Lemma find_filter_same {A} (g f : A -> bool) l : (forall x, In x l -> g x = true -> f x = true) ->
+    find g (filter f l) = find g l.
+  Proof.
+    induction l as [|a l IH]; intros H; [reflexivity|]. cbn [filter find].
+    assert (IH' : find g (filter f l) = find g l) by (apply IH; intros x Hx; apply H; now right).
+    destruct (g a) eqn:Eg.
+    - rewrite (H a (or_introl eq_refl) Eg). cbn [find]. now rewrite Eg.
+    - destruct (f a); cbn [find]; rewrite ?Eg; exact IH'.
+  Qed.
+
+  Lemma krel_lookup f kP kC i : krel f kP kC -> nohit_ino f kP i -> watch_of_ino kC i = watch_of_ino kP i.
+  Proof.
+    intros (A & _) H. unfold watch_of_ino. rewrite A. apply find_filter_same. intros x Hx Hg. apply N.eqb_eq in Hg. now apply H.
+  Qed.
+
+  Lemma knotify_krel f kP kC ino bit isd c name : krel f kP kC -> nohit_ino f kP ino ->
+    krel f (knotify kP ino bit isd c name) (knotify kC ino bit isd c name).
+  Proof.
+    intros R H. assert (L := krel_lookup f kP kC ino R H). destruct R as (A & B & D & E). unfold knotify. rewrite L.
+    destruct (watch_of_ino kP ino) as [kw|]; [|now repeat split].
+    destruct (N.eqb (N.land bit (kw_mask kw)) 0); [now repeat split|]. repeat split; cbn; congruence.
+  Qed.
+
+  Lemma knotify_nohit f k i ino bit isd c name : nohit_ino f k i -> nohit_ino f (knotify k ino bit isd c name) i.
+  Proof.
+    intros H kw Hk. apply H. destruct (knotify_cases k ino bit isd c name) as [E|(kw' & _ & _ & E)]; rewrite E in Hk; exact Hk.
+  Qed.
+
+  Lemma kgone_krel f kP kC ino af : krel f kP kC -> nohit_ino f kP ino ->
+    krel f (kgone kP ino af) (kgone kC ino af).
+  Proof.
+    intros R H. assert (L := krel_lookup f kP kC ino R H). unfold kgone. rewrite L.
+    destruct (watch_of_ino kP ino) as [kw|]; [|exact R].
+    set (a1 := if af then knotify kP ino IN_ATTRIB true 0 [] else kP).
+    set (a2 := if af then knotify kC ino IN_ATTRIB true 0 [] else kC).
+    assert (R1 : krel f a1 a2 /\ nohit_ino f a1 ino).
+    { unfold a1, a2. destruct af; [split; [now apply knotify_krel | now apply knotify_nohit] | now split]. }
+    destruct R1 as [R1 H1].
+    destruct (knotify_krel f a1 a2 ino IN_DELETE_SELF false 0 [] R1 H1) as (A & B & D & E).
+    repeat split; cbn; try congruence. rewrite A, !filter_filter. apply filter_ext. intros x. apply andb_comm.
+  Qed.
+
+  Lemma kgone_nohit f k i ino af : nohit_ino f k i -> nohit_ino f (kgone k ino af) i.
+  Proof.
+    intros H kw Hk. apply H. unfold kgone in Hk. destruct (watch_of_ino k ino) as [w0|]; [|exact Hk].
+    cbn in Hk. apply filter_In in Hk as [Hk _].
+    assert (Hs : forall k0 kw0, In kw0 (k_watches (knotify k0 ino IN_DELETE_SELF false 0 [])) -> In kw0 (k_watches k0)).
+    { intros k0 kw0 H0. destruct (knotify_cases k0 ino IN_DELETE_SELF false 0 []) as [E|(kw' & _ & _ & E)]; rewrite E in H0; exact H0. }
+    apply Hs in Hk. destruct af; [|exact Hk].
+    destruct (knotify_cases k ino IN_ATTRIB true 0 []) as [E|(kw' & _ & _ & E)]; rewrite E in Hk; exact Hk.
+  Qed.
+
+  (* the inodes whose watches an operation notifies *)
+  Definition hits (t : fs) (o : op) : list N :=
+    match o with
+    | Touch p | Write p | Unlink p | Mkdir p => [ino_of t (dirname p)]
+    | Chmod p | Rmdir p => [ino_of t (dirname p); ino_of t p]
+    | Rename p q => [ino_of t (dirname p); ino_of t (dirname q); ino_of t q]
+    end.
+
+  Lemma kernel_op_krel f kP kC t o : krel f kP kC -> (forall i, In i (hits t o) -> nohit_ino f kP i) ->
+    krel f (kernel_op kP t o) (kernel_op kC t o).
+  Proof.
+    intros R H. destruct o as [p|p|p|p|p|p|p q]; cbn [kernel_op hits] in *.
+    - assert (H0 := H _ (or_introl eq_refl)). repeat first [apply knotify_krel | apply knotify_nohit]; assumption.
+    - assert (H0 := H _ (or_introl eq_refl)). repeat first [apply knotify_krel | apply knotify_nohit]; assumption.
+    - assert (H0 := H _ (or_introl eq_refl)). assert (H1 := H _ (or_intror (or_introl eq_refl))).
+      destruct (fisdir p t); repeat first [apply knotify_krel | apply knotify_nohit]; assumption.
+    - apply knotify_krel; [assumption | apply H; now left].
+    - apply knotify_krel; [assumption | apply H; now left].
+    - assert (H0 := H _ (or_introl eq_refl)). assert (H1 := H _ (or_intror (or_introl eq_refl))).
+      apply knotify_krel; [now apply kgone_krel | now apply kgone_nohit].
+    - assert (H0 := H _ (or_introl eq_refl)). assert (H1 := H _ (or_intror (or_introl eq_refl))).
+      assert (H2 := H _ (or_intror (or_intror (or_introl eq_refl)))).
+      set (c1 := {| k_watches := k_watches kP; k_next_wd := k_next_wd kP; k_queue := k_queue kP; k_next_cookie := k_next_cookie kP + 1 |}).
+      set (c2 := {| k_watches := k_watches kC; k_next_wd := k_next_wd kC; k_queue := k_queue kC; k_next_cookie := k_next_cookie kC + 1 |}).
+      assert (R0 : krel f c1 c2) by (destruct R as (A & B & D & E); repeat split; cbn; congruence).
+      destruct R as (_ & _ & D & _). rewrite D.
+      assert (R2 : krel f (knotify (knotify c1 (ino_of t (dirname p)) IN_MOVED_FROM (fisdir p t) (k_next_cookie kP) (basename p))
+                                   (ino_of t (dirname q)) IN_MOVED_TO (fisdir p t) (k_next_cookie kP) (basename q))
+                          (knotify (knotify c2 (ino_of t (dirname p)) IN_MOVED_FROM (fisdir p t) (k_next_cookie kP) (basename p))
+                                   (ino_of t (dirname q)) IN_MOVED_TO (fisdir p t) (k_next_cookie kP) (basename q))).
+      { apply knotify_krel; [now apply knotify_krel | now apply knotify_nohit]. }
+      destruct (fisdir q t); [|exact R2]. apply kgone_krel; [exact R2|]. now repeat apply knotify_nohit.
+  Qed.
 End Out.
